@@ -81,4 +81,15 @@ Strip(F, C) ==
   IN SelectSeq(F, keep)
 
 Keys(F) == {KeyOf(F[i]) : i \in 1..Len(F)}
+
+(***************************************************************************)
+(* Factors::to_nearby: the factors of grid-supplied carriers that are not  *)
+(* in the nearby list count all their primary energy as non renewable      *)
+(* (ren' = 0, nren' = ren + nren); on-site and cogeneration factors and    *)
+(* the nearby carriers are unchanged.                                      *)
+(***************************************************************************)
+ToNearby(F, nearby) ==
+  [i \in 1..Len(F) |->
+     IF F[i].src \in {"INSITU", "COGEN"} \/ F[i].cr \in nearby THEN F[i]
+     ELSE [F[i] EXCEPT !.m = <<0, F[i].m[1] + F[i].m[2], F[i].m[3]>>]]
 =============================================================================
